@@ -437,8 +437,10 @@ class Oracle:
         return {o: first(o, True) for o in self.defaults}
 
 
-def classify_persist(o, ty, v1, v2, cli, before, after, server):
+def classify_persist(o, ty, v1, v2, cli, before, after, server, fi_secs=None):
     """key of the defect class a persistence mismatch belongs to"""
+    if o not in cli and o in before.get("DEFAULT", {}) and server not in before and server not in (fi_secs or {}):
+        return "read_config:default-section-ignored-without-server-section"
     if ty == "TList" and isinstance(v1, list) and any((not x) or x != x.strip() or any(c in x for c in ",'\\\"\n\r") for x in v1):
         return "write_list:unquoted-ids"
     sec_b = (before.get(server) or {})
@@ -716,6 +718,19 @@ def gen_reset(rng, tables, n):
     return cases
 
 
+def gen_udefault(rng, tables):
+    """options in the user's [DEFAULT] section and a nickname that has no section yet"""
+    cases = []
+    for o, v in (("user", "bob"), ("version", "102"), ("appid", "QWIN")):
+        user = mk_file([("DEFAULT", [(o, v)])])
+        cli_w = {"url": "https://h.example.com/ofx", "write": True}
+        cases.append({"fi": mk_file([("NAMES", [("1", "x")])]), "user": user, "oh": {},
+                      "runs": [{"argv": argv_of("stmt", "srv", cli_w), "uuids": ["GEN-UUID-1a", "GEN-UUID-1b"]},
+                               {"argv": argv_of("stmt", "srv", {}), "uuids": ["GEN-UUID-2a", "GEN-UUID-2b"]}],
+                      "_cli": [cli_w, {}], "_server": "srv", "_opt": o, "_kind": "udefault"})
+    return cases
+
+
 def gen_listq(rng, tables):
     """account ids that would need quoting in the file"""
     cases = []
@@ -954,7 +969,7 @@ def check_property(case, res, orc, fail):
                     continue
                 if o == "clientuid" and not norm(v1) and v2 == uid:
                     continue                  # the generated default CLIENTUID takes effect from the next run on
-                key = classify_persist(o, ty, v1, v2, clis[i], bef, aft, server)
+                key = classify_persist(o, ty, v1, v2, clis[i], bef, aft, server, parse_plain(case["fi"]) if not case.get("realfi") else None)
                 fail(key, "option %r: %r in effect when run %d wrote the settings, %r on the next run without it on the command line" % (o, v1, i, v2),
                      dict(rp, run=i, option=o, written=v1, reread=v2, file=after))
 
@@ -1007,6 +1022,7 @@ def run(rep, tier, rng):
     cases += gen_random(rng, tables, 4000 if thorough else 500)
     cases += gen_reset(rng, tables, 5)
     cases += gen_listq(rng, tables)
+    cases += gen_udefault(rng, tables)
     cases += gen_wild(rng, tables, 3000 if thorough else 400)
     cases += gen_malformed(rng, tables, 3000 if thorough else 400)
     cases += gen_realfi(rng, tables, 400 if thorough else 60)
